@@ -87,6 +87,12 @@ add('C09', 'model_checking',
     "symbolic execution of the real calibration code over symbolic per-sample tensors (UF terms, z3), fake interpreter as nondeterministic environment stub, replay on the real interpreter",
     'DESIGN.md 3/C09')
 
+add('C14', 'model_checking',
+    "Short API call histories (quantize A then load/quantize B on one Quantizer; two Quantizers sharing one calibration-result object; repeated quantize; calibrate with a previous result; get_quantization_recipe in between) run through the real Quantizer with SYMBOLIC statistics; after every call the caller-owned arguments (calibration result, previous result, dataset, recipe list, model bytes) are compared with a snapshot (identity and terms), and the model rewritten by the last quantize() is compared with the one a fresh Quantizer produces from equal arguments - structure concretely, every scale/zero-point/constant as a term whose equality z3 decides (i.e. whether ANY statistics make the two differ).",
+    "Assumes: the five scenarios x 6 recipe pairs x 8 skeletons (thorough: more skeletons); float ops uninterpreted (sound for equality of terms built by the same code); fresh-process / PYTHONHASHSEED independence is outside the symbolic claim (a concrete two-process sha256 comparison is reported in the thorough tier); validate() purity is checked in C18's harness.",
+    "relational symbolic execution of API call histories on shared symbolic statistics (UF terms, z3), snapshot comparison of caller-owned objects, byte-level replay through the public API",
+    'DESIGN.md 3/C14')
+
 def write():
   m = {
    'version': 1,
